@@ -34,7 +34,7 @@ CONSTANTS
   SwapAmounts = {}
   MaxRej = 0
   Sample = TRUE
-  MathMaxIn = 60
+  MathMaxIn = 40
   MathScales = {0, 1, 2, 3}
 CONSTRAINT GenConstraint
 CHECK_DEADLOCK FALSE
